@@ -9,9 +9,9 @@ namespace Cgreen
 
 /-- The verdict of a completed run is success exactly when no executed check failed and no test ended
 abnormally — for every suite tree, every capacity, forked and in-process execution. -/
-theorem C01_verdict (cap : Nat) (hcap : 0 < cap) (m : Mode) (t : Tree) (hok : t.AllOk cap m) :
-    verdict (run ⟨cap, m⟩ t) = some (if (t.truth cap).f = 0 ∧ (t.truth cap).e = 0 then 0 else 1) := by
-  obtain ⟨hh, _, ht, _⟩ := run_spec cap hcap m t hok
+theorem C01_verdict (cap : Nat) (hcap : 0 < cap) (m : Mode) (r : Reporter) (t : Tree) (hok : t.AllOk cap m) :
+    verdict (run ⟨cap, m, r⟩ t) = some (if (t.truth cap).f = 0 ∧ (t.truth cap).e = 0 then 0 else 1) := by
+  obtain ⟨hh, _, ht, _⟩ := run_spec cap hcap m r t hok
   simp only [verdict, hh, Option.isSome_none, Bool.false_eq_true, if_false, ht]
   by_cases h1 : (t.truth cap).f = 0 <;> by_cases h2 : (t.truth cap).e = 0 <;> simp [h1, h2]
 
@@ -22,9 +22,9 @@ theorem C01_anywhere (cap : Nat) (t : Tree) :
   rw [Tree.truth_eq_sum]; exact sumTruth_clean cap _
 
 /-- What the caller of the process sees says "success" exactly in that case. -/
-theorem C01_process (cap : Nat) (hcap : 0 < cap) (m : Mode) (t : Tree) (hok : t.AllOk cap m) :
-    (run ⟨cap, m⟩ t).procEnd.success = true ↔ ((t.truth cap).f = 0 ∧ (t.truth cap).e = 0) := by
-  obtain ⟨hh, _, ht, _⟩ := run_spec cap hcap m t hok
+theorem C01_process (cap : Nat) (hcap : 0 < cap) (m : Mode) (r : Reporter) (t : Tree) (hok : t.AllOk cap m) :
+    (run ⟨cap, m, r⟩ t).procEnd.success = true ↔ ((t.truth cap).f = 0 ∧ (t.truth cap).e = 0) := by
+  obtain ⟨hh, _, ht, _⟩ := run_spec cap hcap m r t hok
   simp only [St.procEnd, hh, ht, ProcEnd.success]
   by_cases h1 : (t.truth cap).f = 0 <;> by_cases h2 : (t.truth cap).e = 0 <;> simp [h1, h2]
 
@@ -52,7 +52,7 @@ theorem C01_killed (s : St) (d : Death) (h : s.halted = some d) (hd : d ≠ .uex
 
 /-- Witness for F04b: the excluded case really is a failure of the full statement. -/
 theorem C01_uexit_witness :
-    (run ⟨4096, .inproc⟩ (.node "top" false false [] [{ name := "t", body := [.check false, .die .uexit0] }])).procEnd.success = true := by
+    (run ⟨4096, .inproc, .text⟩ (.node "top" false false [] [{ name := "t", body := [.check false, .die .uexit0] }])).procEnd.success = true := by
   decide
 
 /-! Non-vacuity: a concrete non-trivial tree meets the hypotheses. -/
@@ -67,7 +67,7 @@ example : exampleTree.AllOk 4096 .fork := by
   simp [exampleTree, Tree.AllOk, allOkSubs, Test.ok, Proc.ok]
   decide
 
-example : verdict (run ⟨4096, .fork⟩ exampleTree) = some 1 := by decide
+example : verdict (run ⟨4096, .fork, .text⟩ exampleTree) = some 1 := by decide
 example : exampleTree.truth 4096 = ⟨4, 2, 2, 1⟩ := by decide
 
 end Cgreen
